@@ -364,6 +364,7 @@ func (fc *FnCtx) stateKeys(st *State) []any {
 // contractCall: assert requires, havoc assigns, assume ensures.
 func (fc *FnCtx) contractCall(st *State, e *ast.CallExpr, fn *types.Func, sig *types.Signature, c *FuncContract, recv Term, hasRecv bool, args []Term, ctext string, ord int) []Term {
 	c.Used = true
+	fc.interleave(st, fn)
 	if c.Trusted {
 		fc.trustedUsed[c.Key] = true
 	}
@@ -946,4 +947,36 @@ func (fc *FnCtx) pkgReaches(from, to string) bool {
 		return false
 	}
 	return walk(from)
+}
+
+// interleave: `opt interleave=<pkg>` on the function under verification says that other requests may run any
+// exported operation of <pkg> between two of this function's calls into <pkg> (each such call is its own critical
+// section). Before every call into the package everything those operations can write is given a fresh value, so
+// what an earlier call observed is not assumed to still hold: a decision split over two calls must be justified
+// by the second call's own answer.
+func (fc *FnCtx) interleave(st *State, fn *types.Func) {
+	p := fc.contract.Opts["interleave"]
+	if p == "" || fn == nil || fn.Pkg() == nil {
+		return
+	}
+	p = strings.ReplaceAll(p, "@/", modInternal)
+	if fn.Pkg().Path() != p {
+		return
+	}
+	pk := fc.prog.Pkgs[p]
+	if pk == nil || pk.Types == nil {
+		return
+	}
+	fc.assumptions["interference: between two calls into "+p+" other requests may have run any exported operation of that package (its state is given fresh values before each such call)"] = true
+	sc := pk.Types.Scope()
+	for _, n := range sc.Names() {
+		f, ok := sc.Lookup(n).(*types.Func)
+		if !ok || !f.Exported() {
+			continue
+		}
+		saved := fc.ptrArgs
+		fc.ptrArgs = nil
+		fc.havocForCall(st, f, f.FullName())
+		fc.ptrArgs = saved
+	}
 }
